@@ -875,6 +875,24 @@ func (R *lpResolver) origins(v ssa.Value) (fns map[*ssa.Function]bool, opaque bo
 					return fns, true
 				}
 			}
+		case *ssa.Extract:
+			// component i of a package function's result tuple: its i-th
+			// return value on every return
+			call, ok := y.Tuple.(*ssa.Call)
+			if !ok {
+				return fns, true
+			}
+			g := ir.Callee(call.Call)
+			if g == nil || g.Blocks == nil {
+				return fns, true
+			}
+			for _, r := range ir.Returns(g) {
+				if y.Index < len(r.Results) {
+					push(r.Results[y.Index])
+				} else {
+					return fns, true
+				}
+			}
 		default:
 			return fns, true
 		}
